@@ -281,10 +281,10 @@ pub fn check(host: &Host, end: &RunEnd, cx: &Ctx) -> Vec<Finding> {
 
     // ---- per-operation agreement (C19 counts, C20 outcomes, C18 kind of result)
     let ops = ops_view(host);
-    let mut done_seen: BTreeSet<u32> = BTreeSet::new(); // handles that saw DROPPED|k>0
+    let mut done_seen: BTreeSet<u32> = BTreeSet::new(); // handles whose end the host moved to DONE (any DROPPED code)
     for r in &host.ops {
         if let Some(c) = r.code {
-            if !r.is_future && c & 0xf == DROPPED && c >> 4 > 0 {
+            if !r.is_future && c & 0xf == DROPPED {
                 done_seen.insert(r.handle);
             }
         }
